@@ -1787,11 +1787,9 @@ func (ctx *RenderContext) toBool(val interface{}) bool {
 	switch v := val.(type) {
 	case bool:
 		return v
-	case int, int8, int16, int32, int64:
+	case int:
 		return v != 0
-	case uint, uint8, uint16, uint32, uint64:
-		return v != 0
-	case float32, float64:
+	case float64:
 		return v != 0
 	case string:
 		return v != ""
@@ -1801,7 +1799,8 @@ func (ctx *RenderContext) toBool(val interface{}) bool {
 		return len(v) > 0
 	}
 
-	// Try reflection for other types
+	// Try reflection for other types (this includes every other numeric kind:
+	// in a multi-type case v stays an interface and v != 0 compares it with int(0))
 	rv := reflect.ValueOf(val)
 	switch rv.Kind() {
 	case reflect.Bool:
